@@ -1,8 +1,13 @@
 """C08 — JSON serialisation round-trips without loss.
 
 Workload: generated rich packages (vf.gen.rich_modules: every model field, every expression class) loaded by the visitor
-and — importable flavour — by the inspector, with and without alias resolution; namespace packages over two search paths
-(from a working directory above and unrelated to them); built-in modules; a slice of the standard library; Griffe's own
+and — importable flavour — by the inspector, with and without alias resolution; packages whose
+scopes bind one name several times by statements of different kinds (import / def / class / assignment / annotation / wildcard
+import; sequences, try-import/except-define, define/try-import-override, if/else, TYPE_CHECKING and version guards; module and
+class level; init modules, sub-package modules, stub+module pairs) and use it in every expression slot; packages that come
+with stubs (`.pyi` next to the sources, `__init__.pyi`, `<name>-stubs` packages in the same or another search path, stub-only
+modules and sub-packages, stubs only) loaded with and without `find_stubs_package`; namespace packages over
+two search paths (from a working directory above and unrelated to them); built-in modules; a slice of the standard library; Griffe's own
 packages; the ``griffe dump`` command line in a subprocess.
 
 Oracles: ``as_json(full=False|True)`` never raises; ``M2 = Module.from_json(M.as_json())`` never raises and
@@ -37,7 +42,13 @@ RULE = ("trees = generated packages (top init + core + sub-package/leaf [+ extra
         "annotations under postponed evaluation (importable flavour); classes with bases/decorators/nested classes/"
         "properties with setters and deleters/overloads/instance attributes/dataclasses; functions over all five "
         "parameter kinds; aliases that resolve inside the package, stay unresolved (stdlib, unknown, TYPE_CHECKING), "
-        "wildcards; __all__ forms) x agent {visitor, inspector} x aliases {unresolved, resolved (implicit or not)}; "
+        "wildcards; __all__ forms) x agent {visitor, inspector} x aliases {unresolved, resolved (implicit or not)}; packages "
+        "of vf.gen.rich_modules.RebindGen (each scope binds names 2-3 times by different statement kinds in different control-flow "
+        "wrappers, then uses them in every expression slot, in the binding scope and below it; judged by CPython's ast as to "
+        "which names are re-bound) x both flavours x agents x aliases; "
+        "stub layouts of vf.gen.rich_modules.StubGen (stubs derived from the generated modules: same names, rewritten annotations, "
+        "overloads, stub-only members/modules/sub-packages) x layout {inline, <name>-stubs same/other search path, stubs only, "
+        "module+stub, both} x find_stubs_package x cwd; "
         "namespace packages over two search paths x cwd {above, unrelated}; built-in modules; stdlib modules; griffe and "
         "_griffe; CLI dumps. distinct = digest of (files, package, options); non-trivial = the dump has >=3 object kinds, "
         ">=1 alias and >=3 expression classes")
@@ -53,7 +64,9 @@ TECHNIQUE = "runtime monitoring: round-trip oracle (encode / decode / re-encode 
 REQUIRED_COUNTERS = ["trees_loaded", "static_trees", "dynamic_trees", "resolved_trees", "namespace_trees", "builtin_trees",
                      "stdlib_trees", "own_package_trees", "serialised_minimal", "serialised_full", "decoded",
                      "roundtrip_minimal_equal", "roundtrip_full_equal", "objects_walked", "expressions_compared",
-                     "names_resolution_compared", "cli_dumps_compared"]
+                     "names_resolution_compared", "cli_dumps_compared", "rebinding_trees", "scopes_import_then_rebound",
+                     "names_compared_import_then_rebound", "names_compared_rebound_other_order", "derived_paths_compared",
+                     "stub_layout_trees", "pyi_modules_in_trees", "modules_outside_package_search_path"]
 EXHAUSTIVE = {"quick": False, "thorough": False}
 ASSUMPTIONS = ["generated importable packages have no import-time side effects; they get unique names and are purged from sys.modules",
                "trees the loader itself refuses to build are outside the quantifier ('any loaded tree') and are skipped, counted",
@@ -86,8 +99,10 @@ ID_CHAIN = "C08-reload-attribute-chain-flattened"
 ID_INIT_SCOPE = "C08-reload-init-scope-lost"
 ID_MEMBER_KEY = "C08-decode-member-named-kind-or-cls"
 ID_FUNC_MEMBERS = "C08-decode-drops-function-members"
+ID_STUB_SCOPE = "C08-reload-stub-scope-lost"
+ID_FULL_OUTSIDE = "C08-full-dump-module-outside-package-search-path"
 ALL_IDS = [ID_LINENO, ID_FILEPATH, ID_FULL_BUILTIN, ID_FULL_NS_CWD, ID_SCOPE_SITE, ID_SCOPE_NESTED, ID_STR_PARENT, ID_LAMBDA, ID_CHAIN,
-           ID_INIT_SCOPE, ID_MEMBER_KEY, ID_FUNC_MEMBERS]
+           ID_INIT_SCOPE, ID_MEMBER_KEY, ID_FUNC_MEMBERS, ID_STUB_SCOPE, ID_FULL_OUTSIDE]
 
 
 # -- building and loading trees ---------------------------------------------------------------------------------------
@@ -148,7 +163,8 @@ def load_tree(case: dict, roots: list[str], *, cli_like: bool = False):
     if parser:
         kw["docstring_parser"] = griffe.Parser(parser)
     loader = griffe.GriffeLoader(**kw)
-    mod = loader.load(case["package"], try_relative_path=True) if cli_like else loader.load(case["package"])
+    extra = {"find_stubs_package": True} if case.get("find_stubs") else {}
+    mod = loader.load(case["package"], try_relative_path=True, **extra) if cli_like else loader.load(case["package"], **extra)
     if case.get("resolve"):
         loader.resolve_aliases(implicit=bool(case.get("implicit")), external=case.get("external", False))
     return mod, loader
@@ -225,6 +241,86 @@ def first_difference(a: str, b: str) -> dict:
     return {"pointer": r[0], "original": json.dumps(r[1], default=repr)[:300], "other": json.dumps(r[2], default=repr)[:300]}
 
 
+# -- which names does a scope bind several times?  (CPython's ast, independent of griffe) -------------------------------
+def _binders(body: list, out: list) -> None:
+    """(name, kind, lineno) for every binding statement of one scope, in source order; compound statements are entered,
+    function bodies are not, class bodies are scopes of their own (handled by the caller)."""
+    import ast
+
+    for node in body:
+        if isinstance(node, ast.Import):
+            for a in node.names:
+                out.append((a.asname or a.name.split(".", 1)[0], "import", node.lineno))
+        elif isinstance(node, ast.ImportFrom):
+            for a in node.names:
+                out.append(("*", "wildcard", node.lineno) if a.name == "*" else (a.asname or a.name, "import", node.lineno))
+        elif isinstance(node, (ast.FunctionDef, ast.AsyncFunctionDef)):
+            out.append((node.name, "def", node.lineno))
+        elif isinstance(node, ast.ClassDef):
+            out.append((node.name, "class", node.lineno))
+        elif isinstance(node, (ast.Assign, ast.AnnAssign, ast.AugAssign)):
+            targets = node.targets if isinstance(node, ast.Assign) else [node.target]
+            for t in targets:
+                for n in ast.walk(t):
+                    if isinstance(n, ast.Name) and isinstance(n.ctx, ast.Store):
+                        out.append((n.id, "assign" if not isinstance(node, ast.AnnAssign) or node.value is not None else "annotation", node.lineno))
+        else:
+            for field in ("body", "orelse", "finalbody"):
+                sub = getattr(node, field, None)
+                if isinstance(sub, list) and sub and isinstance(sub[0], ast.stmt):
+                    _binders(sub, out)
+            for h in getattr(node, "handlers", ()):
+                _binders(h.body, out)
+            for c in getattr(node, "cases", ()):
+                _binders(c.body, out)
+
+
+def rebinding_census(files: dict) -> dict:
+    """module path -> {"import_then_other": names bound by an import statement and, further down in the same scope, by a statement
+    of another kind (def/class/assignment/annotation/wildcard import) or by another import; "other": names bound several times in
+    any other order; "scopes": number of scopes with at least one name of the first class}."""
+    import ast
+
+    census: dict = {}
+    for rel, src in files.items():
+        if not rel.endswith((".py", ".pyi")):
+            continue
+        try:
+            tree = ast.parse(src)
+        except (SyntaxError, ValueError):
+            continue
+        parts = rel.rsplit(".", 1)[0].split("/")
+        if parts[-1] == "__init__":
+            parts.pop()
+        entry = census.setdefault(".".join(parts), {"import_then_other": set(), "other": set(), "scopes": 0})
+        scopes = [tree.body] + [n.body for n in ast.walk(tree) if isinstance(n, ast.ClassDef)]
+        for body in scopes:
+            events: list = []
+            _binders(body, events)
+            wild = [ln for nm, kind, ln in events if kind == "wildcard"]
+            first_import: dict = {}
+            count: dict = {}
+            hit = False
+            for nm, kind, ln in events:
+                if kind == "wildcard":
+                    continue
+                count[nm] = count.get(nm, 0) + 1
+                if kind == "import":
+                    first_import.setdefault(nm, ln)
+                if nm in first_import and ln > first_import[nm]:
+                    entry["import_then_other"].add(nm)
+                    hit = True
+            for nm, ln in first_import.items():
+                if any(w > ln for w in wild):  # a wildcard import below an import may re-bind the name
+                    entry["import_then_other"].add(nm)
+                    hit = True
+            for nm, c in count.items():
+                if (c > 1 or wild) and nm not in entry["import_then_other"]:
+                    entry["other"].add(nm)
+            entry["scopes"] += hit
+    return census
+
+
 # -- parallel walker ------------------------------------------------------------------------------------------------
 class Problem:
     def __init__(self, what: str, observed=None, expected=None, finding: str | None = None) -> None:  # noqa: ANN001
@@ -257,12 +353,19 @@ def _has_special_lambda(expr) -> bool:  # noqa: ANN001
 
 
 class Walker:
-    def __init__(self, rec) -> None:  # noqa: ANN001
+    def __init__(self, rec, census: dict | None = None) -> None:  # noqa: ANN001
         self.rec = rec
         self.problems: list[Problem] = []
         self.n_objects = 0
         self.n_exprs = 0
         self.n_names = 0
+        self.n_derived = 0
+        self.census = census or {}
+        self.scope_census: dict | None = None  # census entry of the module the walker is in
+        self.n_rebound_first = 0
+        self.n_rebound_other = 0
+        self.root1 = None  # root of the original tree (to tell scopes that are part of the tree from scopes that are not)
+        self.cur2 = None  # the reloaded object whose expressions are being compared
 
     def add(self, what: str, observed=None, expected=None, finding: str | None = None) -> None:  # noqa: ANN001
         if len(self.problems) < 200:
@@ -280,7 +383,8 @@ class Walker:
             return
         self.n_exprs += 1
         names: list = []
-        if not self._same(e1, e2, names):
+        derived: list = []
+        if not self._same(e1, e2, names, derived):
             self.add(f"{site}: expression structure differs after reload", json.dumps(ex._expr_as_dict(e2), default=str)[:400],
                      json.dumps(ex._expr_as_dict(e1), default=str)[:400])
             return
@@ -300,13 +404,29 @@ class Walker:
             elif isinstance(elem, ex.ExprAttribute) and isinstance(elem.first, ex.ExprName):
                 first_layer.add(id(elem.first))
         chain_first = id(e2.first) if isinstance(e2, ex.ExprAttribute) else None
+        differing = 0
         for n1, n2 in names:
             self.n_names += 1
+            if self.scope_census is not None and not isinstance(n1.parent, ex.ExprName):
+                if n1.name in self.scope_census["import_then_other"]:
+                    self.n_rebound_first += 1
+                elif n1.name in self.scope_census["other"]:
+                    self.n_rebound_other += 1
             c1, c2 = _cp(n1), _cp(n2)
             if c1 == c2:
                 continue
+            differing += 1
             self.add(f"{site}: name {n1.name!r} resolves differently after reload ({site_kind})", c2, c1,
-                     self.classify_name(n1, n2, site_kind, first_layer, chain_first))
+                     self.classify_name(n1, n2, site_kind, first_layer, chain_first) or self.classify_stub_scope(n1, n2))
+        if differing:
+            return
+        # paths that compound expressions derive from their names (`a.b.c`, `f(x)` -> f, `f(k=1)` -> f(k), `a[b]` -> a)
+        for d1, d2 in derived:
+            self.n_derived += 1
+            c1, c2 = _cp(d1), _cp(d2)
+            if c1 != c2:
+                self.add(f"{site}: canonical path of a {type(d1).__name__} differs after reload although every name in it resolves as "
+                         f"before ({site_kind})", c2, c1)
 
     @staticmethod
     def classify_name(n1, n2, site_kind: str, first_layer: set, chain_first: int | None) -> str | None:  # noqa: ANN001
@@ -335,7 +455,41 @@ class Walker:
             return ID_INIT_SCOPE
         return None
 
-    def _same(self, a, b, names: list) -> bool:  # noqa: ANN001
+    def classify_stub_scope(self, n1, n2) -> str | None:  # noqa: ANN001
+        """The original name is attached to a scope of a *stub* module (.pyi) that was merged into the tree and is not part of it
+        (the object of the tree at that path is another object, from a non-stub file); the reloaded name is attached where the
+        decoder attaches the expressions of the object being compared (the object itself or its parent)."""
+        from pathlib import Path
+
+        from _griffe import expressions as ex
+        from _griffe.models import Class, Module
+
+        while isinstance(n1.parent, ex.ExprName) and isinstance(n2.parent, ex.ExprName):
+            n1, n2 = n1.parent, n2.parent
+        p1, p2 = n1.parent, n2.parent
+        if not isinstance(p1, (Module, Class)) or not isinstance(p2, (Module, Class)) or self.root1 is None or self.cur2 is None:
+            return None
+        if p2 is not self.cur2 and p2 is not self.cur2.parent:
+            return None
+        try:
+            stub_file = p1.module._filepath
+            if not (isinstance(stub_file, Path) and stub_file.suffix == ".pyi"):
+                return None
+            root = self.root1
+            if p1.path != root.path and not p1.path.startswith(root.path + "."):
+                return None
+            in_tree = root
+            for part in p1.path[len(root.path):].lstrip(".").split("."):
+                if part:
+                    in_tree = in_tree.members[part]
+            merged_file = in_tree.module._filepath
+        except Exception:  # noqa: BLE001
+            return None
+        if in_tree is not p1 and isinstance(merged_file, Path) and merged_file.suffix != ".pyi":
+            return ID_STUB_SCOPE
+        return None
+
+    def _same(self, a, b, names: list, derived: list | None = None) -> bool:  # noqa: ANN001
         from _griffe import expressions as ex
 
         if isinstance(a, ex.Expr) or isinstance(b, ex.Expr):
@@ -344,14 +498,16 @@ class Walker:
             self.rec.add_to_set("expression_classes_roundtripped", type(a).__name__)
             if isinstance(a, ex.ExprName):
                 names.append((a, b))
+            elif derived is not None and type(a).canonical_path is not ex.Expr.canonical_path:
+                derived.append((a, b))
             for f in dataclasses.fields(a):
                 if f.name == "parent":
                     continue
-                if not self._same(getattr(a, f.name), getattr(b, f.name), names):
+                if not self._same(getattr(a, f.name), getattr(b, f.name), names, derived):
                     return False
             return True
         if isinstance(a, (list, tuple)) and isinstance(b, (list, tuple)):
-            return len(a) == len(b) and all(self._same(x, y, names) for x, y in zip(a, b))
+            return len(a) == len(b) and all(self._same(x, y, names, derived) for x, y in zip(a, b))
         return a == b and (isinstance(a, str) == isinstance(b, str))
 
     # objects ------------------------------------------------------------------------------------------------------
@@ -382,6 +538,9 @@ class Walker:
         from _griffe.enumerations import ParameterKind
 
         self.n_objects += 1
+        if self.root1 is None:
+            self.root1 = o1
+        self.cur2 = o2
         site = o1.path
         if o1.is_alias != o2.is_alias:
             self.add(f"{site}: alias-ness differs", o2.is_alias, o1.is_alias)
@@ -399,6 +558,11 @@ class Walker:
             return
         if o1.path != o2.path:
             self.add(f"{site}: path differs", o2.path, o1.path)
+        if self.census:
+            try:
+                self.scope_census = self.census.get(o1.path if o1.is_module else o1.module.path)
+            except Exception:  # noqa: BLE001
+                self.scope_census = None
         if (o1.lineno, o1.endlineno) != (o2.lineno, o2.endlineno):
             self.add(f"{site}: line span differs", (o2.lineno, o2.endlineno), (o1.lineno, o1.endlineno))
         self.docstring(o1.docstring, o2.docstring, site)
@@ -503,12 +667,41 @@ def namespace_outside_cwd(mod) -> bool:  # noqa: ANN001
     return False
 
 
+def module_files(mod) -> dict:  # noqa: ANN001
+    """Observed file layout of a loaded tree: how many modules come from `.pyi` files, and how many regular modules of a regular
+    package lie outside the directory the package itself was found in (its search path)."""
+    from pathlib import Path
+
+    out = {"pyi": 0, "outside": 0, "modules": 0}
+    top = mod._filepath if mod.is_module else None
+    base = None
+    if isinstance(top, Path):
+        base = top.parent.parent if top.stem == "__init__" else top.parent
+    stack = [mod]
+    while stack:
+        o = stack.pop()
+        if o.is_alias or not o.is_module:
+            continue
+        out["modules"] += 1
+        fp = o._filepath
+        if isinstance(fp, Path):
+            if fp.suffix == ".pyi":
+                out["pyi"] += 1
+            if base is not None and base not in fp.parents:
+                out["outside"] += 1
+        stack.extend(o.members.values())
+    return out
+
+
 def judge(rec, case: dict, mod, tags: tuple = ()) -> None:  # noqa: ANN001, C901, PLR0912, PLR0915
     """All in-process oracles on one loaded tree."""
     from _griffe.exceptions import BuiltinModuleError
     from _griffe.models import Module
 
     problems: list[Problem] = []
+    layout = module_files(mod)
+    rec.count("pyi_modules_in_trees", layout["pyi"])
+    rec.count("modules_outside_package_search_path", layout["outside"])
     # 1. serialising never fails
     dumps: dict[bool, str | None] = {}
     for full in (False, True):
@@ -522,6 +715,8 @@ def judge(rec, case: dict, mod, tags: tuple = ()) -> None:  # noqa: ANN001, C901
                 finding = ID_FULL_BUILTIN
             elif full and type(exc) is ValueError and namespace_outside_cwd(mod):
                 finding = ID_FULL_NS_CWD
+            elif full and type(exc) is ValueError and "is not in the subpath of" in str(exc) and layout["outside"] and dumps[False] is not None:
+                finding = ID_FULL_OUTSIDE
             problems.append(Problem(f"as_json(full={full}) raised {type(exc).__name__} on a loaded tree", f"{type(exc).__name__}: {exc}"[:300],
                                     "a JSON string", finding))
     minimal = dumps[False]
@@ -567,7 +762,15 @@ def judge(rec, case: dict, mod, tags: tuple = ()) -> None:  # noqa: ANN001, C901
                                             {"original": d.get("original"), "at": d.get("pointer", d.get("offset"))},
                                             ID_FUNC_MEMBERS if lost_function_members(dumps[full], again, d.get("pointer")) else None))
             # 4. parallel walk + name resolution
-            w = Walker(rec)
+            census = {}
+            for files in case.get("roots", ()):
+                for path, entry in rebinding_census(files).items():
+                    mine = census.setdefault(path, {"import_then_other": set(), "other": set(), "scopes": 0})
+                    mine["import_then_other"] |= entry["import_then_other"]
+                    mine["other"] |= entry["other"] - mine["import_then_other"]
+                    mine["scopes"] += entry["scopes"]
+            rec.count("scopes_import_then_rebound", sum(e["scopes"] for e in census.values()))
+            w = Walker(rec, census)
             try:
                 w.obj(mod, m2)
             except Exception as exc:  # noqa: BLE001
@@ -575,6 +778,9 @@ def judge(rec, case: dict, mod, tags: tuple = ()) -> None:  # noqa: ANN001, C901
             rec.count("objects_walked", w.n_objects)
             rec.count("expressions_compared", w.n_exprs)
             rec.count("names_resolution_compared", w.n_names)
+            rec.count("derived_paths_compared", w.n_derived)
+            rec.count("names_compared_import_then_rebound", w.n_rebound_first)
+            rec.count("names_compared_rebound_other_order", w.n_rebound_other)
             problems.extend(w.problems)
     _report(rec, case, problems, nontrivial, tags)
 
@@ -625,8 +831,12 @@ def run_tree(rec, case: dict) -> None:  # noqa: ANN001
             if case.get("resolve"):
                 rec.count("resolved_trees")
             src = case.get("source")
-            if src in ("namespace", "builtin", "stdlib", "own"):
-                rec.count({"namespace": "namespace_trees", "builtin": "builtin_trees", "stdlib": "stdlib_trees", "own": "own_package_trees"}[src])
+            if src in ("namespace", "builtin", "stdlib", "own", "rebinding", "rebinding-importable"):  # noqa: SIM102
+                rec.count({"namespace": "namespace_trees", "builtin": "builtin_trees", "stdlib": "stdlib_trees", "own": "own_package_trees",
+                           "rebinding": "rebinding_trees", "rebinding-importable": "rebinding_trees"}[src])
+            if src == "stubs":
+                rec.count("stub_layout_trees")
+                rec.add_to_set("stub_layouts_loaded", f"{case.get('layout', '?')}:{'find-stubs-package' if case.get('find_stubs') else 'plain'}")
             judge(rec, case, mod, tags)
     except Exception as exc:  # noqa: BLE001
         rec.fail_exc(case, f"{type(exc).__name__} escaped the harness around one tree", exc)
@@ -721,6 +931,8 @@ def shards(tier: str, seed: int) -> list[dict]:
             "stdlib": [STDLIB[(2 * i + k) % len(STDLIB)] for k in range(2)] if quick else [STDLIB[(3 * i + k) % len(STDLIB)] for k in range(3)],
             "own": (["griffe"] if i == 0 else ["_griffe"] if i == 1 else []),
             "cli": 6 if quick else 50, "depth": 2 if quick else 3, "index": i, "structural_pkgs": 12 if quick else 250,
+            "rebinding_static": 4 if quick else 120, "rebinding_importable": 2 if quick else 40,
+            "stub_layouts": 6 if quick else 150,
         })
     return out
 
@@ -762,6 +974,43 @@ def generated_cases(rng: random.Random, spec: dict, uid: str):  # noqa: ANN201
                    "implicit": True, "cwd": cwd}
 
 
+def rebinding_cases(spec: dict, uid: str):  # noqa: ANN201
+    """Packages whose scopes bind names several times (own random stream derived from the seed: the other cases of a seed stay
+    what they were)."""
+    rng = random.Random(f"{spec['seed']}:rebinding")
+    depth = spec["depth"]
+    for i in range(spec.get("rebinding_static", 0)):
+        name = f"vr{uid}_{i}"
+        files, _ = rich_modules.gen_rebinding_package(rng, name, flavour="static", depth=rng.randint(1, depth))
+        implicit = rng.random() < 0.5
+        for resolve in (False, True):
+            yield {"kind": "files", "source": "rebinding", "roots": [files], "package": name, "agent": "static", "resolve": resolve,
+                   "implicit": implicit}
+    for i in range(spec.get("rebinding_importable", 0)):
+        name = f"vq{uid}_{i}"
+        files, _ = rich_modules.gen_rebinding_package(rng, name, flavour="importable", depth=rng.randint(1, depth))
+        for agent in ("static", "dynamic"):
+            for resolve in (False, True):
+                yield {"kind": "files", "source": "rebinding-importable", "roots": [files], "package": name, "agent": agent,
+                       "resolve": resolve, "implicit": rng.random() < 0.5}
+
+
+def stub_layout_cases(spec: dict, uid: str):  # noqa: ANN201
+    """Packages that come with stubs: next to the sources, `__init__.pyi`, `<name>-stubs` packages in the same or in another search
+    path, stub-only modules and sub-packages, stubs only; loaded with and without `find_stubs_package` (own random stream)."""
+    rng = random.Random(f"{spec['seed']}:stubs")
+    for i in range(spec.get("stub_layouts", 0)):
+        name = f"vp{uid}_{i}"
+        roots, options, _ = rich_modules.gen_stubs_layout(rng, name, depth=rng.randint(1, spec["depth"]))
+        resolve = rng.random() < 0.5
+        yield {"kind": "files", "source": "stubs", "roots": roots, "package": name, "agent": "static", "resolve": resolve,
+               "implicit": rng.random() < 0.5, "find_stubs": options["find_stubs"], "layout": options["layout"],
+               "cwd": rng.choice(["above", "unrelated"])}
+        if options["layout"] != "stubs-only" and rng.random() < 0.5:
+            yield {"kind": "files", "source": "stubs", "roots": roots, "package": name, "agent": "static", "resolve": not resolve,
+                   "implicit": False, "find_stubs": not options["find_stubs"], "layout": options["layout"], "cwd": "above"}
+
+
 def cli_cases(rng: random.Random, spec: dict, uid: str):  # noqa: ANN201
     for i in range(spec["cli"]):
         name = f"vc{uid}_{i}"
@@ -797,6 +1046,10 @@ def run_shard(spec: dict, rec) -> None:  # noqa: ANN001
     for name in spec["stdlib"]:
         run_case(rec, {"kind": "named", "source": "stdlib", "package": name, "agent": "static", "resolve": rng.random() < 0.5, "implicit": False})
     for case in generated_cases(rng, spec, uid):
+        run_case(rec, case)
+    for case in rebinding_cases(spec, uid):
+        run_case(rec, case)
+    for case in stub_layout_cases(spec, uid):
         run_case(rec, case)
     for case in cli_cases(rng, spec, uid):
         run_case(rec, case)
